@@ -28,6 +28,7 @@ def denoteOpnd (p : RefProg) : Nat → List (Option Val) → Opnd → Option Val
     | .outer k => denoteTop p fuel k
     | .loc j => (loc[j]?).join
     | .abs _ => none
+    | .slot _ => none
 
 /-- value of the k-th top-level node -/
 def denoteTop (p : RefProg) : Nat → Nat → Option Val
@@ -67,15 +68,25 @@ def denoteInstr (p : RefProg) : Nat → List (Option Val) → Val → Instr → 
       denoteTemplate p fuel (p.env.body body lv) lv
     | .cutoff _ _ => none
     | .expert _ => none
+    | .publish _ _ => none
+    | .scopedVar v => some v
+    | .memoCall _ _ => none
+    | .mapOp _ => none
+    | .perKey _ _ _ => none
 
 /-- value of the node a template returns, elaborated on `lhsVal` -/
 def denoteTemplate (p : RefProg) : Nat → Template → Val → Option Val
   | 0, _, _ => none
-  | fuel+1, t, lhsVal =>
+  | fuel+1, t, lhsVal => denoteTemplateWith p fuel t lhsVal []
+
+/-- the same with the closure's first locals given (a per-key function receives its input as `%0`) -/
+def denoteTemplateWith (p : RefProg) : Nat → Template → Val → List (Option Val) → Option Val
+  | 0, _, _, _ => none
+  | fuel+1, t, lhsVal, init =>
     let loc := t.instrs.foldl (fun (acc : List (Option Val)) i =>
       match i with
-      | .cutoff _ _ => acc
-      | _ => acc ++ [denoteInstr p fuel acc lhsVal i]) []
+      | .cutoff _ _ | .publish _ _ => acc
+      | _ => acc ++ [denoteInstr p fuel acc lhsVal i]) init
     denoteOpnd p fuel loc t.ret
 end
 
